@@ -225,10 +225,16 @@ class Ctx:
             want = sym.show(s_b.local(i + 1), s_b)
             if self.expr(c, a) != want:
                 return None
+        self.__dict__.setdefault("_transparent_caller", set()).add(key)
         res = self.pc_strs(c, blk)
         res = [set(d) for d in res if d] or None
         cache[key] = res
         return res
+
+    def has_transparent_caller(self, body):
+        """a private helper with one call site that hands its own parameters on unchanged"""
+        self._caller_conditions(body)
+        return body.key in self.__dict__.get("_transparent_caller", set())
 
     # closure handed to a lazy combinator: the closure body runs only in one state of the receiver
     LAZY = [
@@ -672,9 +678,17 @@ class Ctx:
         """a generator and the private helper fns (with templates of their own) it was cut into"""
         from . import tpl as _tpl
         out = [body]
-        for h in self.local_callees(body, depth=2):
-            if str(h.raw.get("vis", "")).startswith("Restricted") and _tpl.Templates(h).events and self._single_call_site(h) and self._caller_conditions(h) is not None:
-                out.append(h)
+        frontier = [body]
+        for _ in range(2):
+            nxt = []
+            for b in frontier:
+                for h in self.local_callees(b, depth=1):
+                    if h.key in [x.key for x in out]:
+                        continue
+                    if str(h.raw.get("vis", "")).startswith("Restricted") and _tpl.Templates(h).events and self._single_call_site(h) and self.has_transparent_caller(h):
+                        out.append(h)
+                        nxt.append(h)
+            frontier = nxt
         return out
 
     def _single_call_site(self, h):
